@@ -27,6 +27,7 @@ struct GGraph {
     bool inexact = false;          // weights are arbitrary doubles given by wbits
     std::string wtype = "double";  // "double" | "int"
     std::string family;
+    bool heavy_tail = false;       // generation hint only: use the bimodal weight scheme instead of all-unit
 
     double weight(size_t k) const {
         if (inexact) { double d; memcpy(&d, &e[k].wbits, 8); return d; }
@@ -180,6 +181,29 @@ inline int fam_theta(Rng &r, int paths, int maxlen, EL &el) {  // two terminals 
     return n;
 }
 
+// hubs joined by heavy edges, many light multi-hop gadgets between them and slightly heavier chords
+// that a (2k-1)-spanner drops: the heavy hub edge enters the spanner late, so any mistake in how a
+// dropped edge's cycle is closed pays the heavy edge again and again - approximation ratios get tight
+inline int fam_hubs(Rng &r, int max_n, EL &el, std::vector<int64_t> &w) {
+    int hubs = (int) r.range(2, 3);
+    int n = hubs;
+    int64_t H = r.pick(std::vector<int> { 50, 400, 1000 });
+    for (int h = 1; h < hubs; h++) { el.emplace_back(0, h); w.push_back(r.range(H / 2, H)); }
+    int gadgets = (int) r.range(3, 6);
+    int commonL = r.chance(600) ? (int) r.range(2, 4) : 0;
+    for (int gk = 0; gk < gadgets && n + 4 <= max_n; gk++) {
+        int t = (int) r.below(hubs), x = (t + 1 + (int) r.below(hubs - 1)) % hubs;
+        int L = commonL ? commonL : (int) r.range(2, 4);               // light path s .. t with L edges
+        int s0 = n++;
+        int prev = s0; int64_t mx = 1;
+        for (int i = 0; i < L - 1 && n < max_n; i++) { el.emplace_back(prev, n); int64_t ww = r.range(1, 3); mx = std::max(mx, ww); w.push_back(ww); prev = n++; }
+        el.emplace_back(prev, t); { int64_t ww = r.range(1, 3); mx = std::max(mx, ww); w.push_back(ww); }
+        if (r.chance(850)) { el.emplace_back(s0, x); w.push_back(r.range(1, 3)); }          // light edge to the other hub
+        if (r.chance(850)) { if (r.chance(500)) el.emplace_back(s0, t); else el.emplace_back(t, s0); w.push_back(mx + r.range(0, 2)); }   // chord, either orientation
+    }
+    return n;
+}
+
 inline void dedup(EL &el) {
     std::set<std::pair<int,int>> seen; EL out;
     for (auto &p : el) {
@@ -197,6 +221,10 @@ struct GenOpts {
     bool inexact = false;
     bool compose = true;
     int64_t max_weight = 1 << 20;
+    int hubs_pm = 0;               // per-mille: the 'hubs' family with its own structural weights
+    int heavy_tail_pm = 0;         // per-mille: bimodal weights (few very heavy edges) replace the all-unit scheme
+    int boundary_pm = 0;           // per-mille: a sparse graph whose size sits on a power-of-two boundary
+    int boundary_max_n = 257;
 };
 
 inline int gen_structure(Rng &r, int max_n, EL &el, std::string &family) {
@@ -260,7 +288,13 @@ inline void assign_weights(Rng &r, GGraph &g, const GenOpts &o) {
         int64_t lim = (int64_t) 2000000000 / std::max<int64_t>(1, (int64_t) std::max(1, g.n) * std::max(1, g.m()));
         cap = std::max<int64_t>(1, std::min(cap, lim));
     }
-    if (scheme < 25) { for (auto &e : g.e) e.w = 1; }
+    if (scheme < 25 && g.heavy_tail) {
+        // bimodal: mostly light edges, a few very heavy ones (approximation ratios get tight when a
+        // cycle is closed over a heavy edge although a light detour exists)
+        int64_t H = std::min<int64_t>(cap, (int64_t) r.pick(std::vector<int> { 100, 500, 1000 }));
+        for (auto &e : g.e) e.w = r.chance(150) ? r.range(std::max<int64_t>(1, H / 2), H) : r.range(1, std::min<int64_t>(cap, 3));
+    }
+    else if (scheme < 25) { for (auto &e : g.e) e.w = 1; }
     else if (scheme < 55) { int64_t W = std::min<int64_t>(cap, (int64_t) r.pick(std::vector<int>{ 2, 3, 5 })); for (auto &e : g.e) e.w = r.range(1, W); }
     else if (scheme < 70) {  // distinct integers
         std::vector<int64_t> ws; for (size_t k = 0; k < g.e.size(); k++) ws.push_back((int64_t) k + 1);
@@ -286,8 +320,53 @@ inline GGraph from_el(int n, const EL &el) {
     return g;
 }
 
+// sparse graph on n in {31,32,33,63,64,65,...}: a random forest over a few components plus a
+// handful of extra edges (cycle-space dimension <= 5) and possibly isolated vertices.  Sizes at
+// word / power-of-two boundaries are where bitmap and index arithmetic goes wrong.
+inline GGraph gen_boundary_graph(Rng &r, const GenOpts &o) {
+    static const int sizes[] = { 31, 32, 33, 63, 64, 65, 95, 96, 127, 128, 129, 191, 192, 255, 256, 257 };
+    int n;
+    do { n = sizes[r.below(16)]; } while (n > o.boundary_max_n);
+    EL el;
+    int comps = (int) r.range(1, 4);
+    std::vector<int> comp_of(n);
+    int isolated = r.chance(400) ? (int) r.range(1, 3) : 0;
+    std::vector<std::vector<int>> members(comps);
+    for (int v = 0; v < n; v++) {
+        bool iso = isolated > 0 && (v == 0 || v == n - 1 || r.chance(10)) && r.chance(600);
+        if (iso) { isolated--; comp_of[v] = -1; continue; }
+        int c = (int) r.below(comps); comp_of[v] = c;
+        if (!members[c].empty()) add_e(el, members[c][r.below(members[c].size())], v);
+        members[c].push_back(v);
+    }
+    int extra = (int) r.range(0, 5);
+    for (int k = 0; k < extra; k++) { int c = (int) r.below(comps); if (members[c].size() >= 3) add_e(el, members[c][r.below(members[c].size())], members[c][r.below(members[c].size())]); }
+    dedup(el);
+    GGraph g = from_el(n, el);
+    g.family = "boundary";
+    GenOpts o2 = o; o2.max_weight = std::min<int64_t>(o.max_weight, 50);
+    assign_weights(r, g, o2);
+    r.shuffle(g.e);
+    return g;
+}
+
 // One graph in the domain of C01/C02 (simple, positive weights, exact sums) within the bounds.
 inline GGraph gen_graph(Rng &r, const GenOpts &o) {
+    if (o.boundary_pm > 0 && r.chance((unsigned) o.boundary_pm)) return gen_boundary_graph(r, o);
+    if (o.hubs_pm > 0 && r.chance((unsigned) o.hubs_pm)) {
+        EL hel; std::vector<int64_t> hw;
+        int hn = fam_hubs(r, std::max(o.max_n, 20), hel, hw);
+        // drop duplicate pairs but keep the weights aligned
+        std::set<std::pair<int,int>> seen; GGraph g; g.n = hn;
+        for (size_t k = 0; k < hel.size(); k++) {
+            auto key = std::make_pair(std::min(hel[k].first, hel[k].second), std::max(hel[k].first, hel[k].second));
+            if (hel[k].first == hel[k].second || !seen.insert(key).second) continue;
+            g.e.push_back(GEdge { hel[k].first, hel[k].second, hw[k], 0 });
+        }
+        g.family = "hubs"; g.wexp = r.chance(300) ? -1 : 0; g.wtype = (o.allow_int && g.wexp == 0 && r.chance(300)) ? "int" : "double";
+        relabel_and_shuffle(r, g);
+        return g;
+    }
     EL el; std::string fam;
     int budget_n = o.max_n;
     int parts = (o.compose && r.chance(250)) ? 2 : 1;
@@ -316,6 +395,7 @@ inline GGraph gen_graph(Rng &r, const GenOpts &o) {
     while ((int) el.size() > o.max_m) el.erase(el.begin() + (long) r.below(el.size()));
     GGraph g = from_el(n, el);
     g.family = fam;
+    g.heavy_tail = o.heavy_tail_pm > 0 && r.chance((unsigned) o.heavy_tail_pm);
     assign_weights(r, g, o);
     relabel_and_shuffle(r, g);
     return g;
